@@ -951,7 +951,7 @@ def alphabet_min(dt):
 
 def run(ck: common.Check):
     ck.prove(["GeffProps.C12"])
-    ck.rule = ("graph: corpus + ALL id lists (<=3) x edge lists (<=3) over the alphabet {0,1,max(dtype)} "
+    ck.rule = ("graph: corpus + ALL id lists (<=3) x edge lists (quick: <=3 ids x <=2 edges and <=2 ids x 3 edges; thorough: <=3 x <=3) over the alphabet {0,1,max(dtype)} "
                "(and {min,1,max} for <=2 ids, <=2 edges), dtypes round-robin over the 8 integer dtypes (thorough: every dtype "
                "for <=2 ids, <=2 edges), each evaluated for the four validators and for validate_data under directed and "
                "undirected metadata + seeded random mostly-valid graphs with single defects and values at the dtype limits; "
@@ -962,8 +962,11 @@ def run(ck: common.Check):
                "labellings of the rest + random forests with lone unlabelled nodes; non-trivial = non-empty input / some flag on")
     cases = list(corpus())
     n_corpus = len(cases)
-    ne = 3
-    cases.extend(graph_exhaustive(alphabet_of, 3, ne, INT_DTYPES))
+    if ck.quick:   # <=3 ids x <=2 edges, and <=2 ids x <=3 edges (thorough: <=3 x <=3)
+        cases.extend(graph_exhaustive(alphabet_of, 3, 2, INT_DTYPES))
+        cases.extend(c for c in graph_exhaustive(alphabet_of, 2, 3, INT_DTYPES) if len(c["edges"]) == 3)
+    else:
+        cases.extend(graph_exhaustive(alphabet_of, 3, 3, INT_DTYPES))
     cases.extend(graph_exhaustive(alphabet_min, 2, 2, INT_DTYPES))
     if not ck.quick:
         for dt in INT_DTYPES:
